@@ -652,6 +652,8 @@ func (fr *Frame) contractEnv(params []*Val, results []*Val, st, old *State) *Env
 	}
 	for i, p := range fr.fn.Params {
 		env.vars[p.Name()] = cvOfVal(canonVal(params[i]))
+		// entry value of a (possibly reassigned) parameter: <name>0
+		env.vars[p.Name()+"0"] = env.vars[p.Name()]
 	}
 	for i, r := range results {
 		env.vars[fmt.Sprintf("result%d", i)] = cvOfVal(canonVal(r))
@@ -1222,7 +1224,7 @@ func (fr *Frame) resolveLocal(name string, at *ssa.BasicBlock, env map[ssa.Value
 				}
 				consider(d.X, b)
 			case *ssa.Phi:
-				if d.Comment == want && b != at {
+				if d.Comment == want {
 					consider(d, b)
 				}
 			}
